@@ -117,6 +117,7 @@ type CallPlan struct {
 	InterceptorErrAfter bool          // client-stream: the outermost handler interceptor returns the plan\'s error after the handler has sent its response
 	CloseTwice          bool          // server-stream client calls Close twice
 	clientLimit         bool          // C14: the call ends on the client's own read limit
+	protoRefused        bool          // C14: the handler lacks the compression the client sends with
 	unsendable          int           // C01: 1 + index of the request message the client's codec cannot marshal (0: none)
 	panicAfterCtx       bool
 	ReturnSendErr       bool     // the handler returns the error of a failed Send (as handlers do)
